@@ -1,5 +1,24 @@
+import json
+
 import metasig
 
 
 def run(ctx, replay=None):
+    rp = json.load(open(replay)) if replay else None
+    if rp and rp.get("family") == "storeemit":
+        import storeemit
+        storeemit.run_c03_part(ctx, rp)
+        return ctx.finish(level="model_checking", rule="replay: store layer (MetadataStore emission / listing / index)", exhaustive=False,
+                          technique="replay of one recorded store-layer script; TLC trace validation against MonStoreEmit")
+    if not replay:
+        # store layer: forged metadata entries on real replicas - emissions, listings, index vs a control replica
+        finish = ctx.finish
+
+        def finish_with_store_layer(**kw):
+            ctx.finish = finish
+            import storeemit
+            storeemit.run_c03_part(ctx)
+            kw["technique"] = kw.get("technique", "") + "; store layer: forged entries appended to real orbit-db logs, emissions, listings and index of the real MetadataStore (live and after reopen, against a control replica) judged by MonStoreEmit"
+            return finish(**kw)
+        ctx.finish = finish_with_store_layer
     return metasig.run_c03(ctx, replay)
